@@ -63,8 +63,12 @@ def witness(extract, extra=()):
     """A model of the path condition as a concrete case (for 7.2)."""
     c = engine.CTX
     r = c.check(*extra)
+    if r == z3.unknown:
+        raise engine.Inconclusive()
     if r != z3.sat:
-        return None
+        # the assumptions made along the path are unsatisfiable together:
+        # whatever was "proved" on it is vacuous -> the path does not count
+        raise engine.Abort()
     try:
         return extract(c.solver.model())
     except Exception as e:
